@@ -42,7 +42,7 @@ impl Area for MacroArea {
         let mut c1 = vec![]; let mut c2 = vec![];
         for k in keys { if rng.chance(50) { c1.push((k.to_string(), rng.pick(&vals).to_string())); } if rng.chance(40) { c2.push((k.to_string(), rng.pick(&vals).to_string())); } }
         let lnames: Vec<&str> = if rng.chance(10) { vec![] } else if rng.chance(50) { vec!["l"] } else { vec!["l", "method"] };
-        let buckets: Vec<f64> = match rng.below(5) { 0 => vec![], 1 => vec![0.25, 0.5, 4.0], 2 => vec![1.0, f64::INFINITY], 3 => vec![2.0, 1.0], _ => vec![0.1] };
+        let buckets: Vec<f64> = match rng.below(8) { 0 => vec![], 1 => vec![0.25, 0.5, 4.0], 2 => vec![1.0, f64::INFINITY], 3 => vec![2.0, 1.0], 4 => vec![f64::INFINITY], 5 => vec![1.0, f64::INFINITY, f64::INFINITY], 6 => vec![f64::NEG_INFINITY, -0.0], _ => vec![0.1] };
         vec![format!("macro site={} comma={} name={} help={} c1={} c2={} lnames={} buckets={} reg={} uniq={:x}", site, rng.below(2), hex_list(&[*rng.pick(&["m", "req_total", "a:b"])]), hex_list(&[*rng.pick(&["h", "help text", "h", "help", "x", ""])]),
             pairs_str(&c1), pairs_str(&c2), hex_list(&lnames), f64_list(&buckets), rng.pick(&["custom", "custom", "prefixed"]), rng.next() & 0xffffff)]
     }
